@@ -19,6 +19,8 @@ PY
 (cd lean && lake build wowsrp_model WowSrp $MODS WowSrp.Props.C09Vectors WowSrp.Props.CryptoVectors WowSrp.Props.System)
 (cd harness && cargo build --release --offline)
 (cd harness && C_INCLUDE_PATH="$PWD/gmp_compat" cargo build --release --offline --no-default-features --features fast-math --target-dir target-fast)
+# third build: the same harness with debug assertions on (profile-dependent behaviour, see tools/verif.py build_harness)
+(cd harness && CARGO_PROFILE_RELEASE_DEBUG_ASSERTIONS=true cargo build --release --offline --target-dir target-dbg)
 # regression corpus of the translators (informative; it edits scratch copies of the source as it is now, so it must never fail the setup)
 python3 tools/translator_selftest.py > work/translator_selftest.log 2>&1 || echo "translator self-test: see work/translator_selftest.log"
 # the Python oracle against the repository's own published vectors (tests/srp6_internal/*.txt, 14 files x 1000); informative
